@@ -206,6 +206,54 @@ fn bfs(sink: &mut Sink) -> BfsOut {
     }
 }
 
+/// The state is caller-held: explore from every one of the 25 states as initial state against the
+/// table (no flow language is defined for sessions that do not start in None).
+fn bfs_all_initial(sink: &mut Sink) -> (usize, usize) {
+    let states = all_states();
+    let reps = representatives();
+    let mut total_states = 0;
+    let mut transitions = 0;
+    for init in 0..states.len() {
+        let mut seen = vec![false; states.len()];
+        let mut q: VecDeque<(usize, Vec<(usize, bool)>)> = VecDeque::new();
+        seen[init] = true;
+        q.push_back((init, vec![]));
+        while let Some((s, hist)) = q.pop_front() {
+            total_states += 1;
+            for k in 0..KINDS.len() {
+                for dir in [true, false] {
+                    transitions += 1;
+                    sink.evals += 1;
+                    let mut h = hist.clone();
+                    h.push((k, dir));
+                    let got = guarded(|| step(states[s], &reps[k], dir));
+                    let exp = ref_step(s, k, dir);
+                    let ok = match (&got, &exp) {
+                        (Ok(Ok(a)), Ok(b)) => a == b,
+                        (Ok(Err(e)), Err(())) => *e == "InvalidTransition",
+                        _ => false,
+                    };
+                    if !ok {
+                        sink.violation(
+                            format!("from {} seq {}", STATES[init], fmt_hist(&h).join(" ")),
+                            format!("starting in state {}: after [{}] the implementation answers {:?}, the table {:?}", STATES[init], fmt_hist(&h).join(" "), got, exp.map(|i| STATES[i])),
+                            json!({"kind":"cell","state":STATES[s],"msg":KINDS[k],"payload":0,"to_server":dir}),
+                        );
+                        continue;
+                    }
+                    if let Ok(Ok(n)) = got {
+                        if !seen[n] {
+                            seen[n] = true;
+                            q.push_back((n, h));
+                        }
+                    }
+                }
+            }
+        }
+    }
+    (total_states, transitions)
+}
+
 fn replay(run: &Run, v: &Value) -> i32 {
     let case = &v["case"];
     let states = all_states();
@@ -304,6 +352,7 @@ fn main() {
     let mut sink = cell_sweep(&run);
     let cells = sink.evals;
     let b = bfs(&mut sink);
+    let (all_init_states, all_init_transitions) = bfs_all_initial(&mut sink);
     let unreached: Vec<&str> = (0..STATES.len())
         .filter(|i| !b.reached.contains(i))
         .map(|i| STATES[i])
@@ -318,13 +367,30 @@ fn main() {
             ),
         );
     }
+    let mut cross = serde_json::Value::Null;
+    if run.tier == Tier::Thorough {
+        let out = std::process::Command::new("/verif/target/release/vsr").arg("c08").output().unwrap_or_else(|e| machinery_failure("C08", &format!("cannot run the cross explorer: {}", e)));
+        let txt = String::from_utf8_lossy(&out.stdout).to_string();
+        let get = |k: &str| txt.split_whitespace().find_map(|t| t.strip_prefix(k).and_then(|v| v.parse::<usize>().ok()));
+        match (get("states="), get("violations=")) {
+            (Some(st), Some(vi)) => {
+                cross = json!({"primary_states": b.states, "stateright_states": st, "stateright_violating_states": vi});
+                if sink.viol.is_empty() && vi == 0 && st != b.states {
+                    machinery_failure(run.prop, &format!("explorers disagree: primary {} product states, stateright {}", b.states, st));
+                }
+            }
+            _ => machinery_failure(run.prop, &format!("unexpected output of the cross explorer: {:?}", txt)),
+        }
+    }
     let mut cov = Map::new();
+    cov.insert("cross_check_stateright".into(), cross);
     cov.insert("states".into(), json!(b.states));
     cov.insert("transitions".into(), json!(b.transitions));
     cov.insert("traces_validated_against_impl".into(), json!(b.transitions));
     cov.insert("max_depth".into(), json!(b.depth));
     cov.insert("accepted_transitions".into(), json!(b.accepted));
     cov.insert("cells_swept".into(), json!(cells));
+    cov.insert("all_25_initial_states".into(), json!({"states_visited": all_init_states, "transitions": all_init_transitions}));
     cov.insert("impl_states_reached".into(), json!(b.reached.len()));
     cov.insert("impl_states_unreached".into(), json!(unreached));
     cov.insert(
